@@ -10,7 +10,7 @@ def check(ctx):
         "force_send_command, which must pass Sender::force_send, which parks the value on every Full edge; R3 try_recv "
         "re-pops after is_abandoned() before Err(ChannelClosed); R4 Sender<T>: Drop flushes the overflow list oldest "
         "first into the ring; R5 the receiver drain returns false only on Err, true only on Ok(None), and forwards every "
-        "command kind; R6 a submit without an active collector goes to the stale list unless cancelable, the active "
+        "command kind, and the registry is only pushed to / retained in place under its lock (never taken, replaced or cleared); R6 a submit without an active collector goes to the stale list unless cancelable, the active "
         "sweep exists under cancelable=false, the stale list is released, and Reporter::report is reached on every "
         "path with the vector all releases wrote to; R7 span sets and commands are not Clone and are moved/drained "
         "(at most once); R8 the collector thread loops over handle_commands with a sleep fed by report_interval, and "
